@@ -679,6 +679,14 @@ func (f *fn) call(x *ast.CallExpr) ex {
 			codes, pure, _ := f.args(x.Args)
 			return ex{subst(mc.tmpl, r.code, codes), pure && r.pure, mc.t}
 		}
+		// a method that is not translated but stands for a parameter of the generated code (an extern)
+		if ec, ok := externMethods[g+"."+sel.Sel.Name]; ok {
+			codes, _, _ := f.args(x.Args)
+			for _, u := range ec.uses {
+				f.uses[u] = true
+			}
+			return impure(subst(ec.tmpl, r.code, codes), ec.t)
+		}
 		fail(x.Pos(), "method call %s on %s", sel.Sel.Name, g)
 	}
 	fail(x.Pos(), "call of %s", name)
@@ -811,6 +819,13 @@ func (f *fn) retStmt(o *w, rs *ast.ReturnStmt) {
 		}
 		if isNilIdent(rs.Results[0]) {
 			o.line("%s", wrap("()"))
+		} else if ce, ok := rs.Results[0].(*ast.CallExpr); ok && calleeName(ce.Fun) != "fmt.Errorf" && calleeName(ce.Fun) != "errors.New" {
+			// return g(...) where g returns an error: g's outcome is this function's outcome
+			r := f.expr(ce)
+			if r.pure {
+				fail(rs.Pos(), "returned call translated as pure")
+			}
+			o.line("%s", wrap(r.val()))
 		} else {
 			throw(rs.Results[0])
 		}
@@ -887,6 +902,14 @@ func (f *fn) returnsErr(st ast.Stmt) bool {
 func (f *fn) block(o *w, list []ast.Stmt) {
 	f.push()
 	defer f.pop()
+	f.stmtList(o, list)
+	if len(list) == 0 {
+		o.line("pure ()")
+	}
+}
+
+// stmtList translates a statement sequence in the current scope, recognising the error-propagation idiom.
+func (f *fn) stmtList(o *w, list []ast.Stmt) {
 	for i := 0; i < len(list); i++ {
 		st := list[i]
 		// x, err := call(); if err != nil { return ..., err }      ==>   let x ← call
@@ -911,9 +934,6 @@ func (f *fn) block(o *w, list []ast.Stmt) {
 			}
 		}
 		f.stmt(o, st)
-	}
-	if len(list) == 0 {
-		o.line("pure ()")
 	}
 }
 
@@ -1380,13 +1400,7 @@ func (f *fn) forStmt(o *w, init ast.Stmt, cond ast.Expr, post ast.Stmt, body *as
 		}
 	}
 	// the body's statements share the iteration's scope
-	for i := 0; i < len(body.List); i++ {
-		st := body.List[i]
-		if as, ok := st.(*ast.AssignStmt); ok && len(as.Rhs) == 1 && i+1 < len(body.List) && f.propagates(body.List[i+1]) {
-			_ = as
-		}
-		f.stmt(lo, st)
-	}
+	f.stmtList(lo, body.List)
 	f.pop()
 	if postText != "" {
 		for _, l := range strings.Split(strings.TrimRight(postText, "\n"), "\n") {
@@ -1551,9 +1565,7 @@ func translate(tg *target) (text string, err error) {
 			o.line("let mut %s : %s := %s", v.lean, resTys[i].lean, zero)
 		}
 	}
-	for _, st := range fd.Body.List {
-		f.stmt(o, st)
-	}
+	f.stmtList(o, fd.Body.List)
 	pos := fset.Position(fd.Pos())
 	var b strings.Builder
 	for _, l := range f.loops {
@@ -1599,6 +1611,9 @@ func main() {
 		b.WriteString("set_option linter.unusedVariables false\n")
 		b.WriteString("namespace Ucan.Gen\nopen Ucan Ucan.GoM\n\n")
 		b.WriteString(prelude + "\n")
+		if gf.Prelude != "" {
+			b.WriteString(gf.Prelude + "\n")
+		}
 		if gf.Structs {
 			if err := emitStructs(b); err != nil {
 				missing = append(missing, "structs: "+err.Error())
